@@ -182,7 +182,7 @@ def lnT (c : Ctx) (x : Dec) (tape : Tape) : Option (Out × Tape) :=
         let f := ed.step tmp1 (fun c => addOp c tmp1 resAdjust false)
         if f.1.failed then some (failOut f.1.errOf, tape) else
         let rr := ctxRound c f.2
-        let res := rr.2 ||| cInexact
+        let res := rr.2 ||| cInexact ||| cRounded
         some ({ d := rr.1, fl := res, err := goError c.traps res }, tape)
 
 /-- `Context.Log10` -/
@@ -198,7 +198,7 @@ def log10T (c : Ctx) (x : Dec) (tape : Tape) : Option (Out × Tape) :=
       let m := mulOp { nc with prec := c.prec } l.d (invLn10At (c.prec + 2))
       if m.err != .none then some (failOut m.err, tape) else
       let rr := ctxRound c m.d
-      let res := cInexact ||| m.fl ||| rr.2
+      let res := (cInexact ||| cRounded) ||| m.fl ||| rr.2
       some ({ d := rr.1, fl := res, err := goError c.traps res }, tape)
 
 /-- `Context.Pow` -/
@@ -241,7 +241,7 @@ def powT (c : Ctx) (x y : Dec) (tape : Tape) : Option (Out × Tape) :=
         -- `d.Set(decimalNaN)`: no intermediate value (the integer power, or nothing at all when d == x) is left behind
         if s5.1.failed then some ({ d := decNaN, fl := s5.1.fl, err := s5.1.errOf }, tape) else
         let rr := ctxRound c s5.2
-        let res := res ||| rr.2 ||| cInexact
+        let res := res ||| rr.2 ||| cInexact ||| cRounded
         some ({ d := { rr.1 with neg := false }, fl := res, err := goError c.traps res }, tape)
 
 end Apd
